@@ -45,6 +45,15 @@ def _mc_ep(kind, sched):
     return {"module": "MC_Epochs", "quick": f"MC_Epochs_{kind}.cfg", "thorough": f"MC_Epochs_{kind}.cfg", "workers": 6}
 
 
+def _reg(kind, quick_runs):
+    return ({"module": "MC_Registry", "quick": f"MC_Registry_{kind}.cfg", "thorough": f"MC_Registry_{kind}.cfg", "workers": 4,
+             "emits": f"MC_Registry_{kind}"},
+            {"suite": "registry", "trace": "Trace_Registry", "cfg": "Trace_Registry.cfg", "sched_from": f"MC_Registry_{kind}",
+             "extra": {"mode": "sched", "kind": kind}, "quick": {"runs": quick_runs}, "thorough": {"runs": 0}, "procs": 6})
+
+
+_REG = [_reg("pair", 400), _reg("trio", 250), _reg("vault", 400), _reg("incentive", 0)]
+
 PROPS = {
     "C01": {"mc": [MC_POOL], "suites": [POOL_SUITE]},
     "C02": {"mc": [MC_CPMATH], "suites": [MATH_CP, POOL_SUITE]},
@@ -66,6 +75,7 @@ PROPS = {
             "suites": [{"suite": "config", "trace": "Trace_Config", "cfg": "Trace_Config.cfg", "sched_from": "MC_Config",
                         "extra": {"mode": "sched"}, "quick": {"runs": 0}, "thorough": {"runs": 0}, "procs": 6},
                        POOL_SUITE, VAULT_SUITE]},
+    "C19": {"mc": [m for m, _ in _REG], "suites": [x for _, x in _REG]},
     "C14": {"mc": [MC_POOL, MC_VAULT], "suites": [POOL_SUITE, VAULT_SUITE]},
     "C15": {"mc": [MC_POOL], "suites": [POOL_SUITE, MATH_SPREAD]},
 }
